@@ -387,7 +387,7 @@ def main(argv=None):
             for label, case in o['samples'].items():
                 if len(samples) < 8:
                     samples.append({'part': o['part'], 'class': label, 'case': case})
-        if o['failure']:
+        if o['failure'] and o['failure'][1] not in [v[0] for v in violations]:
             violations.append((o['failure'][1], o['failure'][2]))
         errors += o['errors']
     for p in parts.values():
@@ -446,6 +446,11 @@ def main(argv=None):
             print('  ' + msg)
             print('VIOLATION property=%s replay=%s' % (prop, path))
         return 1
+    post = getattr(mod, 'post', None)
+    why = post(info) if post else None
+    if why:
+        print('INCONCLUSIVE: ' + why)
+        return 2
     if errors:
         print('HARNESS ERROR (%d):' % len(errors))
         print(errors[0])
